@@ -639,6 +639,9 @@ class Machine:
                 if base.startswith(pre):
                     base = base[len(pre):].split(".")[0]
             return self.dom.call(base, args, self)
+        for key, fn in getattr(self, "summaries", {}).items():
+            if key in cal:
+                return fn(self, args)
         if cal in self.funcs:
             return self.call(cal, args)
         if cal == "":
